@@ -477,7 +477,9 @@ func (q dec) divBasic(u, v dec) {
 			// If n == qhl, the carry from subVV and the carry from addVV
 			// cancel out and don't affect u[j+n].
 			if n < qhl {
-				u[j+n] += c
+				// u[j+n] is _DMax after the borrow: adding the carry
+				// must wrap around in base _DB, not in base 2**_W.
+				add10VW(u[j+n:j+n+1], u[j+n:j+n+1], c)
 			}
 			qhat--
 		}
